@@ -55,6 +55,8 @@ type Srv struct {
 	Keys map[glow.PublicKey]bool // every public key that appeared in the scenario
 	Full bool                    // emit full snapshots instead of hashes
 	Lost bool                    // a loopback UDP datagram never arrived: the scenario is abandoned (not a finding)
+	InStart bool                 // a (re)start is in progress (kill points are not armed inside the start-up catch-up)
+	Pending string               // the operation in flight (written to the trace by a crash point that kills the process)
 	seen map[string]bool         // oracle rows already written
 }
 
@@ -94,8 +96,28 @@ func (s *Srv) oracleAll(msg []byte, sig glow.Signature) {
 	}
 }
 
+// snapWithDisk is the canonical snapshot followed by the sizes of the persisted logs.
+func (s *Srv) snapWithDisk() string {
+	return canonSnapshot(s.E.S.VerifSnapshot()) + fmt.Sprintf("|dl=%d,%d,%d", fileLen(s.E.Dir+"/equipment-authorizations.dat")/148,
+		fileLen(s.E.Dir+"/equipment-reports.dat")/80, countWeeks(s.E.Dir))
+}
+
+func countWeeks(dir string) int {
+	raw, _ := os.ReadFile(dir + "/" + server.AllDeviceStatsHistoryFile)
+	n := 0
+	for len(raw) > 0 {
+		_, k, err := server.DeserializeStreamAllDeviceStats(raw)
+		if err != nil {
+			return -1
+		}
+		raw = raw[k:]
+		n++
+	}
+	return n
+}
+
 func (s *Srv) after() string {
-	snap := canonSnapshot(s.E.S.VerifSnapshot())
+	snap := s.snapWithDisk()
 	if s.Full {
 		return " #FULL " + snap
 	}
@@ -105,7 +127,7 @@ func (s *Srv) after() string {
 func (s *Srv) emit(line string, obs string) {
 	if s.Full {
 		s.T.Line("%s => %s", line, obs)
-		s.T.Line("srv.snap => %s", canonSnapshot(s.E.S.VerifSnapshot()))
+		s.T.Line("srv.snap => %s", s.snapWithDisk())
 		return
 	}
 	s.T.Line("%s => %s%s", line, obs, s.after())
@@ -124,6 +146,8 @@ func (s *Srv) Boot(now uint32) error {
 
 // bootStart starts the server; returns the server public key in use afterwards.
 func (s *Srv) bootStart() []byte {
+	s.InStart = true
+	defer func() { s.InStart = false }()
 	iter0, rcv0 = atomic.LoadInt64(&udpIter), atomic.LoadInt64(&udpReceived)
 	if err := s.E.Start(); err != nil {
 		return nil
@@ -261,6 +285,7 @@ func (s *Srv) Authorize(ea glow.EquipmentAuthorization, viaHTTP bool) string {
 	for _, b := range snap.Bans {
 		banned[b] = true
 	}
+	s.Pending = "srv.authorize a=" + hex.EncodeToString(ea.Serialize())
 	var obs string
 	if viaHTTP {
 		st, _, err := s.E.PostJSON("/api/v1/authorize-equipment", ea)
@@ -299,6 +324,7 @@ func (s *Srv) Authorize(ea glow.EquipmentAuthorization, viaHTTP bool) string {
 }
 
 func (s *Srv) Rotate() {
+	s.Pending = "srv.rotate"
 	s.E.S.VerifMigrateNow()
 	s.T.Count("rotate")
 	s.emit("srv.rotate", "ok")
@@ -306,6 +332,7 @@ func (s *Srv) Rotate() {
 
 // Tick runs one iteration of the real background rotation loop.
 func (s *Srv) Tick() {
+	s.Pending = fmt.Sprintf("srv.tick now=%d", glow.CurrentTimeslot())
 	s.E.Tick()
 	s.T.Count("tick")
 	s.emit(fmt.Sprintf("srv.tick now=%d", glow.CurrentTimeslot()), "ok")
@@ -314,8 +341,27 @@ func (s *Srv) Tick() {
 // Restart stops and starts the server on the same directory.
 func (s *Srv) Restart() error {
 	now := glow.CurrentTimeslot()
+	pk := s.E.S.PublicKey()
+	s.Pending = fmt.Sprintf("srv.restart fresh=%s now=%d", hx(pk[:]), now)
 	if err := s.E.Stop(); err != nil {
 		return fmt.Errorf("stop: %v", err)
+	}
+	fresh := s.bootStart()
+	if fresh == nil {
+		s.T.Count("restart:fail")
+		s.T.Line("srv.restart fresh=%s now=%d => fail", hx(make([]byte, 32)), now)
+		return fmt.Errorf("restart failed")
+	}
+	s.T.Count("restart:ok")
+	s.emit(fmt.Sprintf("srv.restart fresh=%s now=%d", hx(fresh), now), "ok")
+	return nil
+}
+
+// restartAfterStop starts the (already stopped) server again and records the restart.
+func (s *Srv) restartAfterStop() error {
+	now := glow.CurrentTimeslot()
+	if !strings.HasPrefix(s.Pending, "srv.restart") {
+		s.Pending = fmt.Sprintf("srv.restart fresh=%s now=%d", hx(make([]byte, 32)), now)
 	}
 	fresh := s.bootStart()
 	if fresh == nil {
@@ -367,7 +413,7 @@ func (s *Srv) Stats(tso uint64, falseNeg bool) string {
 }
 
 func (s *Srv) emitStateOnly(line string) {
-	s.T.Line("srv.snap => #%s", fnv64(canonSnapshot(s.E.S.VerifSnapshot())))
+	s.T.Line("srv.snap => #%s", fnv64(s.snapWithDisk()))
 	_ = line
 }
 
@@ -501,7 +547,7 @@ func (s *Srv) ImpactRound() {
 }
 
 func (s *Srv) Snap() {
-	s.T.Line("srv.snap => %s", canonSnapshot(s.E.S.VerifSnapshot()))
+	s.T.Line("srv.snap => %s", s.snapWithDisk())
 }
 
 func (s *Srv) Disk() {
